@@ -135,6 +135,8 @@ def bigart_cases(ctx):
     # sizes around multiples of the limit, a limit larger than the picture
     cases += [f"bigart e {8 * MIB + 4099} {8 * MIB + 1} 1", f"bigart f {8 * MIB + 1} {16 * MIB} 0", f"bigart u {20 * MIB + 5} {9 * MIB} 0",
               f"bigart e {3 * MIB} 65536 1", f"bigart f {MIB + 1} {MIB} 0", f"bigart e {2 * MIB - 1} {MIB} 0", f"bigart e 70000 1000000 1"]
+    # a great many requests for one picture (MPD's smallest binarylimit is 64; a client may meet any): counts beyond u16
+    cases += ["bigart e 70001 1 1", "bigart f 66000 1 0", f"bigart u {65 * 65537} 64 0"]
     for _ in range(6 if ctx.tier == "quick" else 60):
         limit = rng.choice([1000, 4096, 8192, 65536, 100000, MIB, 4 * MIB])
         k = rng.choice([1, 2, 3, 7])
